@@ -20,7 +20,9 @@ var tableValues = map[lang.Kind][]lang.Value{
 		lang.Int(65534), lang.Int(65535), lang.Int(65536), lang.Int(-2147483648), lang.Int(9007199254740993),
 		lang.Int(math.MaxInt64), lang.Int(math.MinInt64)},
 	lang.KFloat: {lang.Float(0), lang.Float(0.5), lang.Float(-0.5), lang.Float(1), lang.Float(1.5), lang.Float(2.5),
-		lang.Float(3), lang.Float(-2), lang.Float(65534), lang.Float(0.1), lang.Float(1e15), lang.Float(1e-7)},
+		lang.Float(3), lang.Float(-2), lang.Float(65534), lang.Float(0.1), lang.Float(1e15), lang.Float(1e-7),
+		// values only a host (or arithmetic) can make: minus zero, not-a-number, the infinities
+		lang.Float(math.Copysign(0, -1)), lang.Float(math.NaN()), lang.Float(math.Inf(1)), lang.Float(math.Inf(-1))},
 	lang.KString: {lang.Str(""), lang.Str("a"), lang.Str("b"), lang.Str("A"), lang.Str("abc"), lang.Str("10"),
 		lang.Str("9"), lang.Str(" a "), lang.Str("é"), lang.Str("狐犬"), lang.Str("a\nb"), lang.Str("true"),
 		// host data that is not valid UTF-8 (Latin-1 text, a stray byte): never a literal
